@@ -39,7 +39,7 @@ func (c *Ctx) mapRangeRule() int {
 			}
 		}
 	}
-	c.C.Floor("MAP-RANGE", n-c.controlCount("MAP-RANGE"), 5)
+	c.C.Floor("MAP-RANGE", n-c.controlCount("MAP-RANGE"), 3)
 	c.C.ExpectControl("MAP-RANGE")
 	return n
 }
